@@ -252,14 +252,15 @@ struct Pipeline {
             check_preamble_reader(mo, rpre, "");
             // ... and it stays what was read while the blocks are being read, and every block carries its own set
             if (vf.has_pre_after) check_preamble_reader(mo, vf.pre_after, "/after-reading-blocks");
+            std::vector<uint64_t> set_fp;
+            for (auto& bp : rpre.m_block_parameters) set_fp.push_back(model::params_fp(bp));
             for (size_t i = 0; i < vf.blocks.size(); i++) {
                 const model::VBlock& b = vf.blocks[i];
-                if (b.bp_index >= rpre.m_block_parameters.size()) continue;
-                PCanon c = canon_params(rpre.m_block_parameters[b.bp_index]), g = canon_params(b.params);
-                std::string d = ref::first_diff(c.storage, g.storage);
-                if (d.empty() && c.has_cp != g.has_cp) d = "collection parameters present/absent";
-                if (d.empty() && c.has_cp) d = ref::first_diff(c.cp, g.cp);
-                if (!d.empty()) V("C09", "I25/parameters-attached-to-block(reader)", mo.name + " block " + std::to_string(i) + " (set " + std::to_string(b.bp_index) + "): " + d);
+                if (b.bp_index >= set_fp.size()) continue;
+                if (b.params_fp != set_fp[b.bp_index]) {
+                    V("C09", "I25/parameters-attached-to-block(reader)", mo.name + " block " + std::to_string(i) + ": the parameter set the reader attached to the block differs from set " + std::to_string(b.bp_index) + " of the preamble it read");
+                    break;
+                }
             }
             compare_blocks_reader(mo, vf);
         }
@@ -385,6 +386,14 @@ struct Pipeline {
                     bool tsd = d.find("'ts'") != std::string::npos;
                     V("C01", "I01/qr-content(ref)", where + " qr " + std::to_string(k) + ": " + d);
                     if (tsd) V("C17", "I20/record-time-not-recovered", where + " qr " + std::to_string(k) + ": " + d);
+                    // a member that is stored as an index into a block table resolves to another value than the one that was added
+                    {
+                        static const char* inl[] = {"'ts'", "'client_port'", "'transaction_id'", "'client_hoplimit'", "'response_delay'", "'query_size'", "'response_size'", "'asn'", "'country_code'", "'round_trip_time'", "'processing_flags'"};
+                        bool inline_member = false;
+                        for (auto* m : inl) if (d.find(m) != std::string::npos) inline_member = true;
+                        if (!inline_member && d.find("member '") != std::string::npos && d.find("' (=") == std::string::npos)
+                            V("C11", "I07/value-denoted-by-stored-index-differs", where + " qr " + std::to_string(k) + ": " + d);
+                    }
                     same = false;
                     break;
                 }
@@ -591,7 +600,7 @@ struct Pipeline {
                 } else {
                     // crash scenarios also rotate onto a name that already holds an older file, and onto the name currently open
                     if (!old_files.empty() && (op.arg & 3) == 2) { target = "/sim/old" + std::to_string((op.arg >> 2) % old_files.size()); cx.tag("rotate-onto-existing"); cx.ctr->add("probe.rotation_onto_existing_name"); }
-                    else if (!old_files.empty() && (op.arg & 3) == 3) { target = cur_base; cx.tag("rotate-onto-open-name"); cx.ctr->add("probe.rotation_onto_open_name"); }
+                    else if ((!old_files.empty() && (op.arg & 3) == 3) || (op.arg % 11) == 7) { target = cur_base; cx.tag("rotate-onto-open-name"); cx.ctr->add("probe.rotation_onto_open_name"); }
                     else target = out_name(id);
                     ret = ex->rotate_output(target, op.export_);
                 }
